@@ -7,8 +7,8 @@ use approx::{AbsDiffEq, RelativeEq};
 use piecewise_polynomial::*;
 use serde_json::json;
 
-const EPS: [f64; 6] = [0.0, f64::EPSILON, 1e-9, 1.0, 1e6, 1e-300];
-const REL: [f64; 6] = [f64::EPSILON, 1e-9, 0.5, 0.0, 1.5, 10.0];
+const EPS: [f64; 8] = [0.0, f64::EPSILON, 1e-9, 1.0, 1e6, 1e-300, f64::INFINITY, f64::MAX];
+const REL: [f64; 7] = [f64::EPSILON, 1e-9, 0.5, 0.0, 1.5, 10.0, f64::INFINITY];
 
 fn oracle_abs(a: &[f64], b: &[f64], eps: f64) -> bool {
     a.len() == b.len() && a.iter().zip(b).all(|(x, y)| f64::abs_diff_eq(x, y, eps))
